@@ -6,10 +6,18 @@
 V=$(cd "$(dirname "$0")/.." && pwd)
 wt=$1; name=$2; shift 2
 export GOFLAGS=-mod=mod GOPROXY=off GOSUMDB=off GOTOOLCHAIN=local
+if [ "$1" = ALL ]; then
+  # by-file seeds: every check (the broken property is whatever the seed says)
+  out=$("$V/tools/try_patch_all.sh" "$wt/seed/patch.diff" 2>&1 | grep -v "pyenv\|^KNOWN")
+  echo "$out" | cut -c1-260
+  caught=no; echo "$out" | grep -q "^ALARM" && caught=yes
+  echo "$out" | grep "^ALARM" | grep -vq "no-failing-input-found" || [ $caught = no ] || caught="only-nofail"
+else
 out=$("$V/tools/try_seed_copy.sh" "$wt/seed/patch.diff" "$@" 2>&1 | grep -v "pyenv\|^KNOWN")
 echo "$out" | cut -c1-200
 caught=no; echo "$out" | grep -q "^VIOLATION" && caught=yes
 echo "$out" | grep "^VIOLATION" | grep -vq "no-failing-input-found" || [ $caught = no ] || caught="only-nofail"
+fi
 cd "$wt" || exit 2
 if [ -f seed/demo.sh ]; then
   bash seed/demo.sh >/tmp/demo.out 2>&1; a=$?; git apply -R seed/patch.diff; bash seed/demo.sh >/tmp/demo.out 2>&1; b=$?; git apply seed/patch.diff
